@@ -34,7 +34,12 @@ type scenario struct {
 	Order         string   `json:"close_order"`
 	Outage        string   `json:"outage"`
 	Closers       int      `json:"concurrent_conn_closers"`
+	SlowWrites    bool     `json:"slow_transport_writes,omitempty"`
+	LastWrite     bool     `json:"write_in_flight_at_conn_close,omitempty"`
+	OutagePending []string `json:"calls_started_during_the_outage,omitempty"`
 }
+
+var outagePendingKinds = []string{"WriteDataPoints", "Flush", "OpenUpstream", "OpenDownstream", "SendBaseTime", "SendCall"}
 
 var pendingKinds = []string{"ReadDataPoints", "ReadMetadata", "ReceiveCall", "ReceiveReplyCall", "SendCallAndWaitReplayCall", "OpenUpstream", "SendBaseTime"}
 
@@ -48,6 +53,15 @@ func gen(r *rand.Rand) scenario {
 	s.Order = []string{"streams-then-conn", "conn-only", "conn-only", "stream-close-twice-then-conn"}[r.Intn(4)]
 	s.Outage = []string{"none", "none", "none", "link-dead-undetected", "redial-refused", "redial-connect-response-withheld", "resume-response-withheld"}[r.Intn(7)]
 	s.Closers = []int{1, 1, 2, 4}[r.Intn(4)]
+	s.SlowWrites = false // virtual delays inside transport.Write stall a bubble as soon as another goroutine waits for a lock the writer holds (mutex waits are not durably blocking): the slow-write schedule runs in real time, see TestC10DisconnectLast
+	s.LastWrite = r.Intn(2) == 0
+	if s.Outage != "none" && s.Outage != "link-dead-undetected" {
+		for _, k := range outagePendingKinds {
+			if r.Intn(3) == 0 {
+				s.OutagePending = append(s.OutagePending, k)
+			}
+		}
+	}
 	return s
 }
 
@@ -171,6 +185,15 @@ func run(s scenario) vrun.Result {
 		}
 		return false
 	}
+	if s.SlowWrites {
+		// every client write takes 3 ms before it reaches the wire; the Disconnect write returns 10 ms after it did
+		w.Net.WriteDelay = func(class string) (pre, post time.Duration) {
+			if class == "Disconnect" {
+				return 0, 10 * time.Millisecond
+			}
+			return 3 * time.Millisecond, 0
+		}
+	}
 	w.Start()
 	var disc atomic.Int64
 	conn, err := w.Connect(iscp.WithConnPingInterval(time.Second), iscp.WithConnPingTimeout(time.Second),
@@ -229,11 +252,21 @@ func run(s scenario) vrun.Result {
 	var pwg sync.WaitGroup
 	pctx, pcancel := context.WithTimeout(bg, 30*time.Second)
 	defer pcancel()
-	pend := func(f func()) {
+	var pendMu sync.Mutex
+	pendingReturned := map[string]bool{}
+	pendNamed := func(name string, f func()) {
+		pendMu.Lock()
+		pendingReturned[name] = false
+		pendMu.Unlock()
 		pwg.Add(1)
 		go func() {
 			defer pwg.Done()
-			defer func() { recover() }()
+			defer func() {
+				recover()
+				pendMu.Lock()
+				pendingReturned[name] = true
+				pendMu.Unlock()
+			}()
 			f()
 		}()
 	}
@@ -242,29 +275,29 @@ func run(s scenario) vrun.Result {
 		case "ReadDataPoints":
 			if len(downs) > 0 && s.Buffered == 0 {
 				d := downs[0]
-				pend(func() { d.ReadDataPoints(pctx) })
+				pendNamed(k, func() { d.ReadDataPoints(pctx) })
 			}
 		case "ReadMetadata":
 			if len(downs) > 0 {
 				d := downs[0]
-				pend(func() { d.ReadMetadata(pctx) })
+				pendNamed(k, func() { d.ReadMetadata(pctx) })
 			}
 		case "ReceiveCall":
 			if s.BufferedCalls == 0 {
-				pend(func() { conn.ReceiveCall(pctx) })
+				pendNamed(k, func() { conn.ReceiveCall(pctx) })
 			}
 		case "ReceiveReplyCall":
 			if s.BufferedCalls == 0 {
-				pend(func() { conn.ReceiveReplyCall(pctx) })
+				pendNamed(k, func() { conn.ReceiveReplyCall(pctx) })
 			}
 		case "SendCallAndWaitReplayCall":
-			pend(func() {
+			pendNamed(k, func() {
 				conn.SendCallAndWaitReplayCall(pctx, &iscp.UpstreamCall{DestinationNodeID: "n", Name: "pending", Type: "t", Payload: []byte("p")})
 			})
 		case "OpenUpstream":
-			pend(func() { conn.OpenUpstream(pctx, "pending") })
+			pendNamed(k, func() { conn.OpenUpstream(pctx, "pending") })
 		case "SendBaseTime":
-			pend(func() { conn.SendBaseTime(pctx, &message.BaseTime{Name: "pending", BaseTime: time.Unix(1, 0).UTC()}) })
+			pendNamed(k, func() { conn.SendBaseTime(pctx, &message.BaseTime{Name: "pending", BaseTime: time.Unix(1, 0).UTC()}) })
 		}
 	}
 	time.Sleep(10 * time.Millisecond)
@@ -288,6 +321,43 @@ func run(s scenario) vrun.Result {
 		time.Sleep(3 * time.Second)
 	}
 	synctest.Wait()
+
+	// calls started while the outage lasts (a reconnect in progress / a half-finished resume): they wait for the
+	// connection or, on a stream, for the flush loop that is stopped while the stream resumes
+	for _, k := range s.OutagePending {
+		switch k {
+		case "WriteDataPoints":
+			if len(ups) > 0 {
+				up := ups[0]
+				pendNamed("outage:"+k, func() {
+					up.WriteDataPoints(pctx, id, &message.DataPoint{ElapsedTime: 77, Payload: []byte("during-outage")})
+				})
+			}
+		case "Flush":
+			if len(ups) > 0 {
+				up := ups[len(ups)-1]
+				pendNamed("outage:"+k, func() { up.Flush(pctx) })
+			}
+		case "OpenUpstream":
+			pendNamed("outage:"+k, func() { conn.OpenUpstream(pctx, "during-outage") })
+		case "OpenDownstream":
+			pendNamed("outage:"+k, func() {
+				conn.OpenDownstream(pctx, []*message.DownstreamFilter{{SourceNodeID: "src", DataFilters: []*message.DataFilter{{Name: "#", Type: "#"}}}})
+			})
+		case "SendBaseTime":
+			pendNamed("outage:"+k, func() {
+				conn.SendBaseTime(pctx, &message.BaseTime{Name: "during-outage", BaseTime: time.Unix(1, 0).UTC()})
+			})
+		case "SendCall":
+			pendNamed("outage:"+k, func() {
+				conn.SendCall(pctx, &iscp.UpstreamCall{DestinationNodeID: "n", Name: "during-outage", Type: "t"})
+			})
+		}
+	}
+	if len(s.OutagePending) > 0 {
+		time.Sleep(10 * time.Millisecond)
+		synctest.Wait()
+	}
 
 	var calls []afterCall
 	fail := func(v *vrun.Result) vrun.Result {
@@ -378,6 +448,14 @@ func run(s scenario) vrun.Result {
 					return fail(v)
 				}
 			}
+		}
+	}
+	// a write whose chunk is on its way into the transport when the connection is closed
+	if s.LastWrite && s.Order == "conn-only" {
+		for _, up := range ups {
+			ctx, c := context.WithTimeout(bg, time.Second)
+			up.WriteDataPoints(ctx, id, &message.DataPoint{ElapsedTime: 88, Payload: []byte("in-flight-at-close")})
+			c()
 		}
 	}
 	// connection close, possibly from several goroutines at once
@@ -482,6 +560,23 @@ func run(s scenario) vrun.Result {
 	if v := closeWithin("Conn(second Close)", 5*time.Second, conn.Close); v != nil {
 		return fail(v)
 	}
+	// calls that were pending when the connection was closed must not stay blocked on the closed object: two virtual
+	// seconds after Close returned (their own contexts would allow 30 s) every one of them has returned
+	time.Sleep(2 * time.Second)
+	synctest.Wait()
+	pendMu.Lock()
+	var stillBlocked []string
+	for name, ret := range pendingReturned {
+		if !ret {
+			stillBlocked = append(stillBlocked, name)
+		}
+	}
+	pendMu.Unlock()
+	if len(stillBlocked) > 0 {
+		sort.Strings(stillBlocked)
+		v := vrun.Violation("a call that was pending when the connection was closed is still blocked 2 virtual seconds after Close returned", "pending-call-blocked-after-close:"+strings.SplitN(stillBlocked[0], "#", 2)[0]+":"+s.Outage, map[string]any{"still_blocked": stillBlocked})
+		return fail(&v)
+	}
 	// let pending calls end, timers expire; then the peer side goes away too
 	pcancel()
 	pwg.Wait()
@@ -545,10 +640,169 @@ func run(s scenario) vrun.Result {
 		return vrun.Violation("library goroutines survive although the connection is closed, the peer is gone and 5 virtual minutes have passed", "goroutine-leak:"+key,
 			map[string]any{"goroutines": sites, "first": left[0].Text, "count": len(left)})
 	}
-	r := vrun.Hold(fmt.Sprintf("%d|%d|%d|%d|%d|%v|%s|%s|%d", s.Ups, s.Downs, s.Writes, s.Buffered, s.BufferedCalls, s.Pending, s.Order, s.Outage, s.Closers), len(ups)+len(downs)+len(s.Pending) > 0)
+	r := vrun.Hold(fmt.Sprintf("%d|%d|%d|%d|%d|%v|%s|%s|%d|%v|%v|%v", s.Ups, s.Downs, s.Writes, s.Buffered, s.BufferedCalls, s.Pending, s.Order, s.Outage, s.Closers, s.SlowWrites, s.LastWrite, s.OutagePending), len(ups)+len(downs)+len(s.Pending) > 0)
 	r.Stat("post_close_calls_judged", int64(len(calls)))
 	r.Stat("streams_open_at_conn_close", int64(len(ups)+len(downs)))
 	r.AddSet("outages", s.Outage)
 	r.AddSet("orders", s.Order)
 	return r
+}
+
+// TestC10DisconnectLast runs in REAL time: client writes are stretched inside the transport (2 ms before a message
+// reaches the wire; the Disconnect write returns 10 ms after the Disconnect reached the wire), writers and acks keep
+// going while the connection is closed. Nothing but Ping/Pong may follow the Disconnect on the wire.
+func TestC10DisconnectLast(t *testing.T) {
+	e := vrun.LoadEnv()
+	meta := vrun.Meta{Property: "C10", Workload: "TestC10DisconnectLast", Total: e.Pick(120, 6000),
+		Rule:        "real time, slow transport writes (every client write takes 2 ms to reach the wire, the Disconnect write returns 10 ms after it did): 1-3 upstreams with the immediate flush policy written by one goroutine each without pause, 0-1 downstream consuming chunks with a 1 ms ack flush interval, metadata and calls from further goroutines; Conn.Close is called 0-8 ms after the start while all of them are running. Oracle on the broker's receive ledger: after the client's Disconnect on a link only Ping/Pong arrive. non-trivial = a Disconnect and at least one stream/request message before it were received; distinct = scenario tuple x number of messages before the Disconnect",
+		Assumptions: []string{"a transport write may take arbitrarily long: the delays create no schedule a real transport could not produce"}}
+	vrun.Loop(t, meta, 0, func(c *vrun.Case) vrun.Result {
+		var res vrun.Result
+		ok, dump := vrun.Watchdog(90*time.Second, func() { res = runDisconnectLast(c) })
+		if !ok {
+			r := vrun.WatchdogVerdict("the case never finished")
+			if r.Verdict == vrun.Inconclusive {
+				r.Witness = map[string]any{"dump_head": dump[:min(len(dump), 4000)]}
+			}
+			return r
+		}
+		return res
+	})
+}
+
+func runDisconnectLast(c *vrun.Case) vrun.Result {
+	r := c.Rng
+	nUps, nDowns, closeAfter := 1+r.Intn(3), r.Intn(2), time.Duration(r.Intn(8000))*time.Microsecond
+	others := r.Intn(2) == 0
+	desc := map[string]any{"upstreams": nUps, "downstreams": nDowns, "close_after_us": closeAfter.Microseconds(), "metadata_and_call_goroutines": others}
+	w := world.New()
+	defer w.Close()
+	w.Net.WriteDelay = func(class string) (pre, post time.Duration) {
+		if class == "Disconnect" {
+			return 0, 10 * time.Millisecond
+		}
+		return 2 * time.Millisecond, 0
+	}
+	w.Start()
+	conn, err := w.Connect(iscp.WithConnPingInterval(time.Hour))
+	if err != nil {
+		return vrun.Inconcl("connect: " + err.Error())
+	}
+	bg := context.Background()
+	id := &message.DataID{Name: "d", Type: "t"}
+	var ups []*iscp.Upstream
+	for i := 0; i < nUps; i++ {
+		ctx, cn := context.WithTimeout(bg, 10*time.Second)
+		up, err := conn.OpenUpstream(ctx, fmt.Sprintf("s%d", i), iscp.WithUpstreamQoS([]message.QoS{message.QoSReliable, message.QoSUnreliable, message.QoSPartial}[i%3]), iscp.WithUpstreamFlushPolicyImmediately(), iscp.WithUpstreamCloseTimeout(time.Second))
+		cn()
+		if err != nil {
+			conn.Close(bg)
+			return vrun.Inconcl("open upstream: " + err.Error())
+		}
+		ups = append(ups, up)
+	}
+	var downs []*iscp.Downstream
+	for i := 0; i < nDowns; i++ {
+		ctx, cn := context.WithTimeout(bg, 10*time.Second)
+		d, err := conn.OpenDownstream(ctx, []*message.DownstreamFilter{{SourceNodeID: "src", DataFilters: []*message.DataFilter{{Name: "#", Type: "#"}}}}, iscp.WithDownstreamQoS(message.QoSReliable), iscp.WithDownstreamAckFlushInterval(time.Millisecond))
+		cn()
+		if err != nil {
+			conn.Close(bg)
+			return vrun.Inconcl("open downstream: " + err.Error())
+		}
+		downs = append(downs, d)
+	}
+	stop := make(chan struct{})
+	var wg sync.WaitGroup
+	spawn := func(f func(ctx context.Context)) {
+		wg.Add(1)
+		go func() {
+			defer wg.Done()
+			defer func() { recover() }()
+			for {
+				select {
+				case <-stop:
+					return
+				default:
+				}
+				ctx, cn := context.WithTimeout(bg, 200*time.Millisecond)
+				f(ctx)
+				cn()
+			}
+		}()
+	}
+	for _, up := range ups {
+		up := up
+		k := 0
+		spawn(func(ctx context.Context) {
+			k++
+			if up.WriteDataPoints(ctx, id, &message.DataPoint{ElapsedTime: time.Duration(k), Payload: []byte("x")}) != nil {
+				time.Sleep(200 * time.Microsecond)
+			}
+		})
+	}
+	if lc := w.B.CurrentLink(); lc != nil {
+		for _, ds := range w.B.Downs() {
+			for k := 0; k < 40; k++ {
+				lc.Send(&message.DownstreamChunk{StreamIDAlias: ds.Alias, UpstreamOrAlias: &message.UpstreamInfo{SessionID: "u", SourceNodeID: "src", StreamID: broker.StreamIDFor("x", "u", 0)},
+					StreamChunk: &message.StreamChunk{SequenceNumber: uint32(k + 1), DataPointGroups: []*message.DataPointGroup{{DataIDOrAlias: id, DataPoints: []*message.DataPoint{{ElapsedTime: 1, Payload: []byte("b")}}}}}})
+			}
+		}
+	}
+	for _, d := range downs {
+		d := d
+		spawn(func(ctx context.Context) {
+			if _, err := d.ReadDataPoints(ctx); err != nil {
+				time.Sleep(200 * time.Microsecond)
+			}
+		})
+	}
+	if others {
+		spawn(func(ctx context.Context) {
+			if conn.SendBaseTime(ctx, &message.BaseTime{Name: "b", BaseTime: time.Unix(1, 0).UTC()}) != nil {
+				time.Sleep(200 * time.Microsecond)
+			}
+		})
+		spawn(func(ctx context.Context) {
+			if _, err := conn.SendCall(ctx, &iscp.UpstreamCall{DestinationNodeID: "n", Name: "c", Type: "t"}); err != nil {
+				time.Sleep(200 * time.Microsecond)
+			}
+		})
+	}
+	time.Sleep(closeAfter)
+	cctx, cn := context.WithTimeout(bg, 20*time.Second)
+	closeErr := conn.Close(cctx)
+	cn()
+	time.Sleep(5 * time.Millisecond)
+	close(stop)
+	wg.Wait()
+	time.Sleep(5 * time.Millisecond)
+	_ = closeErr
+	before, disc := 0, false
+	for _, en := range w.B.Ledger() {
+		if en.Dir != memnet.C2S {
+			continue
+		}
+		if _, ok := en.Msg.(*message.Disconnect); ok {
+			disc = true
+			continue
+		}
+		switch en.Msg.(type) {
+		case *message.Ping, *message.Pong, *message.ConnectRequest:
+			continue
+		}
+		if disc {
+			v := vrun.Violation("the client sent a message other than Ping/Pong after its Disconnect", "message-after-disconnect:"+en.Class, map[string]any{"class": en.Class, "messages_before_disconnect": before})
+			v.Desc = desc
+			return v
+		}
+		before++
+	}
+	res := vrun.Hold(fmt.Sprintf("%d|%d|%v|%d", nUps, nDowns, others, before), disc && before > 0)
+	res.Desc = desc
+	res.Stat("messages_before_disconnect", int64(before))
+	if disc {
+		res.Stat("cases_with_disconnect_received", 1)
+	}
+	return res
 }
